@@ -9,8 +9,8 @@
 
 enum { SK_TERM, SK_NT, SK_ERR };
 #define NILTR (-1)
-#define G_MAXSYM 12
-#define G_MAXRULE 10
+#define G_MAXSYM 16
+#define G_MAXRULE 14
 #define G_MAXRHS 4
 #define G_MAXTR 4
 
@@ -159,6 +159,77 @@ static const struct gram catalogue[] = {
       { 7, 3, { 3, 8, 5 }, "q", 1, 1, { 1 } },
       { 8, 2, { 0, 1 }, "ab", 1, 2, { 0, 1 } },
       { 8, 1, { 0 }, "a1", 1, 1, { 0 } } } },
+  /* 19: G20 unit-rule chain whose members are predicted before their second parent (dynamic lookahead contexts)
+     S : B z # sb(0) | A y # sa(0) | N x # sn(0) ; A : N ; B : A ; N : n */
+  { "G20", 8, { T ("n", 'n'), T ("x", 'x'), T ("y", 'y'), T ("z", 'z'), N ("S"), N ("A"), N ("B"), N ("N") }, 6,
+    { { 4, 2, { 6, 3 }, "sb", 1, 1, { 0 } },
+      { 4, 2, { 5, 2 }, "sa", 1, 1, { 0 } },
+      { 4, 2, { 7, 1 }, "sn", 1, 1, { 0 } },
+      { 5, 1, { 7 }, NULL, 0, 1, { 0 } },
+      { 6, 1, { 5 }, NULL, 0, 1, { 0 } },
+      { 7, 1, { 0 }, NULL, 0, 1, { 0 } } } },
+  /* 20: G21 backward dependency between predicted situations, same set core expanded twice
+     S : T T # s(0 1) ; T : V2 | U2 | V | U ; U : p A x # u(1) ; V : p Y q # v(1) ; U2 : r A x # u2(1) ; V2 : r Y q # v2(1) ;
+     Y : A E # y(0 1) ; E : | e ; A : a */
+  { "G21", 15, { T ("p", 'p'), T ("r", 'r'), T ("x", 'x'), T ("q", 'q'), T ("e", 'e'), T ("a", 'a'),
+                 N ("S"), N ("T"), N ("U"), N ("V"), N ("U2"), N ("V2"), N ("Y"), N ("E"), N ("A") }, 13,
+    { { 6, 2, { 7, 7 }, "s", 1, 2, { 0, 1 } },
+      { 7, 1, { 11 }, NULL, 0, 1, { 0 } }, { 7, 1, { 10 }, NULL, 0, 1, { 0 } }, { 7, 1, { 9 }, NULL, 0, 1, { 0 } }, { 7, 1, { 8 }, NULL, 0, 1, { 0 } },
+      { 8, 3, { 0, 14, 2 }, "u", 1, 1, { 1 } },
+      { 9, 3, { 0, 12, 3 }, "v", 1, 1, { 1 } },
+      { 10, 3, { 1, 14, 2 }, "u2", 1, 1, { 1 } },
+      { 11, 3, { 1, 12, 3 }, "v2", 1, 1, { 1 } },
+      { 12, 2, { 14, 13 }, "y", 1, 2, { 0, 1 } },
+      { 13, 0, { 0 }, NULL, 0, 1, { NILTR } },
+      { 13, 1, { 4 }, NULL, 0, 1, { 0 } },
+      { 14, 1, { 5 }, NULL, 0, 1, { 0 } } } },
+  /* 21: G22 permuted translation, middle symbol completing from two origins
+     S : A B C # s(0 2 1) ; A : a | a a # A2(0 1) ; B : a b # B2(0 1) | b ; C : c */
+  { "G22", 7, { T ("a", 'a'), T ("b", 'b'), T ("c", 'c'), N ("S"), N ("A"), N ("B"), N ("C") }, 6,
+    { { 3, 3, { 4, 5, 6 }, "s", 1, 3, { 0, 2, 1 } },
+      { 4, 1, { 0 }, NULL, 0, 1, { 0 } },
+      { 4, 2, { 0, 0 }, "A2", 1, 2, { 0, 1 } },
+      { 5, 2, { 0, 1 }, "B2", 1, 2, { 0, 1 } },
+      { 5, 1, { 1 }, NULL, 0, 1, { 0 } },
+      { 6, 1, { 2 }, NULL, 0, 1, { 0 } } } },
+  /* 22: G23 the same item with a nullable symbol after the dot twice in one set (two origins)
+     S : P T # s(0 1) ; P : a | a a # P2(0 1) ; T : X N # t(0 1) ; X : a | a a # X2(0 1) ; N : # n() */
+  { "G23", 6, { T ("a", 'a'), N ("S"), N ("P"), N ("T"), N ("X"), N ("N") }, 7,
+    { { 1, 2, { 2, 3 }, "s", 1, 2, { 0, 1 } },
+      { 2, 1, { 0 }, NULL, 0, 1, { 0 } },
+      { 2, 2, { 0, 0 }, "P2", 1, 2, { 0, 1 } },
+      { 3, 2, { 4, 5 }, "t", 1, 2, { 0, 1 } },
+      { 4, 1, { 0 }, NULL, 0, 1, { 0 } },
+      { 4, 2, { 0, 0 }, "X2", 1, 2, { 0, 1 } },
+      { 5, 0, { 0 }, "n", 1, 0, { 0 } } } },
+  /* 23: G24 a nonterminal followed only by a nullable symbol (FOLLOW through nullable tails)
+     S : ( L ) # par(1) | a ; L : S T # l1(0 1) | L , S T # l2(0 2 3) ; T : t | */
+  { "G24", 8, { T ("(", '('), T (")", ')'), T ("a", 'a'), T (",", ','), T ("t", 't'), N ("S"), N ("L"), N ("T") }, 6,
+    { { 5, 3, { 0, 6, 1 }, "par", 1, 1, { 1 } },
+      { 5, 1, { 2 }, NULL, 0, 1, { 0 } },
+      { 6, 2, { 5, 7 }, "l1", 1, 2, { 0, 1 } },
+      { 6, 4, { 6, 3, 5, 7 }, "l2", 1, 3, { 0, 2, 3 } },
+      { 7, 1, { 4 }, NULL, 0, 1, { 0 } },
+      { 7, 0, { 0 }, NULL, 0, 0, { 0 } } } },
+  /* 24: G25 error rule of a non-start nonterminal:  S : A b c d # s(0) ; A : a | error # e() */
+  { "G25", 7, { T ("a", 'a'), T ("b", 'b'), T ("c", 'c'), T ("d", 'd'), ERR, N ("S"), N ("A") }, 3,
+    { { 5, 4, { 6, 1, 2, 3 }, "s", 1, 1, { 0 } },
+      { 6, 1, { 0 }, NULL, 0, 1, { 0 } },
+      { 6, 1, { 4 }, "e", 1, 0, { 0 } } } },
+  /* 25: G26 the nil node occurs only in the more expensive alternative
+     S : X | Y ; X : a O # x 5 (0 1) ; Y : a # y 1 (0) ; O : */
+  { "G26", 5, { T ("a", 'a'), N ("S"), N ("X"), N ("Y"), N ("O") }, 5,
+    { { 1, 1, { 2 }, NULL, 0, 1, { 0 } },
+      { 1, 1, { 3 }, NULL, 0, 1, { 0 } },
+      { 2, 2, { 0, 4 }, "x", 5, 2, { 0, 1 } },
+      { 3, 1, { 0 }, "y", 1, 1, { 0 } },
+      { 4, 0, { 0 }, NULL, 0, 0, { 0 } } } },
+  /* 26: G27 partial translation: an untranslated right-recursive nonterminal right of a translated terminal
+     S : y N # node(0) ; N : y N | y */
+  { "G27", 3, { T ("y", 'y'), N ("S"), N ("N") }, 3,
+    { { 1, 2, { 0, 2 }, "node", 1, 1, { 0 } },
+      { 2, 2, { 0, 2 }, NULL, 0, 0, { 0 } },
+      { 2, 1, { 0 }, NULL, 0, 0, { 0 } } } },
 };
 #define N_CATALOGUE ((int) (sizeof (catalogue) / sizeof (catalogue[0])))
 
@@ -224,7 +295,8 @@ static char *g_putsym (char *p, const struct gsym *s)
 static char g_ws = ' ';        /* the white-space byte used between tokens (may be symbolic) */
 static int g_use_sem = 1;      /* optional semicolons written or not */
 static int g_style = 0;        /* 0 TERM section first, explicit codes; 1 implicit codes; 2 TERM section after the rules; 3 every declaration repeated */
-static int g_comment = 0;      /* a comment after the first rule */
+static int g_comment = 0;      /* a comment after the first rule: 0 none, 1 plain with a star inside, 2 doubled stars, 3 minimal */
+static int g_omit_cost = 0;    /* write `# name (..)' without the cost when the cost is the documented default 1 */
 static char *g_putterms (char *p)
 {
   int i, any = 0, rep;
@@ -248,7 +320,7 @@ static void g_describe (char *buf)
       const struct grule *R = &G.rule[r];
       if (r == 0 || G.rule[r - 1].lhs != R->lhs)
         {
-          if (r) { if (g_use_sem) { *p++ = g_ws; *p++ = ';'; } *p++ = g_ws; if (g_comment) { p = g_puts (p, "/* c* / */"); *p++ = g_ws; } }
+          if (r) { if (g_use_sem) { *p++ = g_ws; *p++ = ';'; } *p++ = g_ws; if (g_comment) { p = g_puts (p, g_comment == 1 ? "/* c* / */" : g_comment == 2 ? "/** t **/" : "/***/"); *p++ = g_ws; } }
           p = g_puts (p, G.sym[R->lhs].name); *p++ = g_ws; *p++ = ':';
         }
       else { *p++ = g_ws; *p++ = '|'; }
@@ -256,7 +328,7 @@ static void g_describe (char *buf)
       *p++ = g_ws; *p++ = '#';
       if (R->anode)
         {
-          *p++ = g_ws; p = g_puts (p, R->anode); *p++ = g_ws; p = g_putn (p, R->cost); *p++ = g_ws; *p++ = '(';
+          *p++ = g_ws; p = g_puts (p, R->anode); if (!(g_omit_cost && R->cost == 1)) { *p++ = g_ws; p = g_putn (p, R->cost); } *p++ = g_ws; *p++ = '(';
           for (k = 0; k < R->ntr; k++) { *p++ = g_ws; if (R->tr[k] == NILTR) *p++ = '-'; else p = g_putn (p, R->tr[k]); }
           *p++ = g_ws; *p++ = ')';
         }
